@@ -400,6 +400,7 @@ C12_STRINGS = ["a = 1; a", "1", "1.5", '"s"', "true", "(1,2)", "()", "", "a", "b
                '"a" = 3; a', '"x" += 1', "3 = 4", '("a" + "b") = true; ab', '"c" = "s"; c', '"q" = 1; q', "(a) = 4; a",
                "false && 1", "true || missing", "false && 1/0", "true || 1/0", "false && missing", "x || 1", "!x && 1", "false && (a = 1)",
                "\ufeff1 + 2", "\ufeffx", "\ufeff", "\ufeff a", "a\ufeff", "\u200b1", "1 +\ufeff 2",
+               "1 / 0; (", "a = 1; )", "k = 8; b =", "missing; 1 +", "h(1); )", "a = 2; 1 2", "a = 2; (1,", "f(1); a = 3; \"",
                "nf(1)", "nf(1.5)", "nf(a)", "nf(b)", "nf(c)", "nn(c)", "nn(a)", "nf a", "nf(1) + 1", "nf(x)", "nn(y)", "nf(())"]
 # consecutive evaluations of strings that differ only in separators inside or between tokens: each is evaluated on its own
 C12_PAIRS = [('"a b" + "c"', '"ab" + "c"'), ("1 2", "12"), ("a b", "ab"), ("1 + 2", "1+2"), ("12", "1 2"), ('"x"', '" x"'),
@@ -459,6 +460,11 @@ def c12_gen(tier, rng):
                 ty = rng.choice("visnbte")
                 ops += ["evc smv " + hexs(src), "evpc mv", "evc srv " + hexs(src), "evpc rv", "evc sm%s %s" % (ty, hexs(src)), "evpc m" + ty, rng.choice(muts)]
             cases.append((G.script("H", ops), {"kind": "stored-tree", "src": src, "nsetup": len(C12_SETUP) + 1, "nblocks": nblocks, "ops": ops}))
+    # a source that does not precompile has no effect at all, through any entry point
+    for src in ["a = 1; )", "k = 8; (b =", "a = 2; 1 2", "a = 2; (1,", "q = 1; f(q); \"", "a += 1; a += 1; (", "f(1); g(1, 2); 1 +; )", "c = \"z\"; ))"]:
+        for code in ("smv", "nmv", "smi", "sme", "nmt", "smn"):
+            ops = C12_SETUP + ["dump", "ev %s %s" % (code, hexs(src)), "dump"]
+            cases.append((G.script("H", ops), {"kind": "noeffect", "src": src, "code": code}))
     for s1, s2 in C12_PAIRS:
         for kind in ("H", "EB"):
             cases.append(c12_case(kind, C12_SETUP if kind == "H" else [], s1, then=s2))
@@ -472,6 +478,13 @@ def c12_gen(tier, rng):
 
 def c12_oracle(case, out, model_out):
     m = case[1]
+    if m.get("kind") == "noeffect" and not out.startswith("PANIC"):
+        steps = step_outputs(out)
+        d0, r, d1 = steps[-3:]
+        lg = out[out.index("LOG[") + 4:out.rindex("]")] if "LOG[" in out else ""
+        if d0 != d1 or lg or not r.startswith("ERR"):
+            return "%r does not precompile, yet %s on it gives %s, calls [%s] and leaves the context %s (before: %s)" % (m["src"], m["code"], r, lg, d1, d0)
+        return None
     if m.get("kind") == "stored-tree" and not out.startswith("PANIC"):
         steps = step_outputs(out)[m["nsetup"]:]
         for b in range(m["nblocks"]):
@@ -890,6 +903,8 @@ def c13_case(tokens):
     src = " ".join(tokens)
     balanced, reason = recognise(tokens)
     ops = C13_SETUP + ["evc build " + hexs(src), "evc smv " + hexs(src), "evc sfv " + hexs(src), "evc srv " + hexs(src)]
+    if len(tokens) <= 3:      # every typed entry point must reject what the untyped ones reject
+        ops += ["evc %s%s%s %s" % (lv, mo, ty, hexs(src)) for lv in "sn" for mo in "fr" for ty in "ifnbste"]
     return (G.script("H", ops), {"kind": "token-seq-eval", "src": src, "balanced": balanced, "reason": reason})
 
 
@@ -911,7 +926,8 @@ def c13_gen(tier, rng):
                 cases.append(c13_case(list(seq)))
     for alpha, lens in ((["false", "true", "&&", "||", "!", "(", ")"], (4, 5)), (["0", "1", "*", "^", "(", ")", "!", "-"], (5,)),
                         (["f", "typeof", "!", "-", "true", "1", "(", ")"], (3, 4, 5)),
-                        (['"s"', "1", "a", "<", "=", "(", ")", "f"], (2, 3, 4, 5)), (['"s"', '"t"', "+", "%", "/", "!=", ",", "x"], (2, 3, 4))):
+                        (['"s"', "1", "a", "<", "=", "(", ")", "f"], (2, 3, 4, 5)), (['"("', '")"', '"(("', "(", ")", "+", "f", "1"], (1, 2, 3, 4)),
+                        (["+", "-", "!", "1", "2.5", "true", '"s"', "a", "0x1f", "1e3"], (1, 2, 3)), (['"s"', '"t"', "+", "%", "/", "!=", ",", "x"], (2, 3, 4))):
         for n in lens:
             for seq in itertools.product(alpha, repeat=n):
                 cases.append(c13_case(list(seq)))
@@ -1561,6 +1577,13 @@ def c08_gen(tier, rng):
             ('(rec("q")) = rec(2)', "ERR ExpectedBoolean", ctxt(), L(("rec", S("q")), ("rec", "I2"))),
             ('(rec(1)) = rec(2)', "ERR ExpectedString", ctxt(), L(("rec", "I1"), ("rec", "I2"))),
             ('(rec("p")) += rec(2); p', "OK I3", ctxt(p="I3"), L(("rec", S("p")), ("rec", "I2"))),
+            ("(p = 7; rec(3)) +", "ERR WrongOperatorArgumentAmount", ctxt(p="I7"), L(("rec", "I3"))),
+            ("rec(1) * nope &&", "ERR VariableIdentifierNotFound", ctxt(), L(("rec", "I1"))),
+            ("! (rec(1) == 1) ||", "ERR WrongOperatorArgumentAmount", ctxt(), L(("rec", "I1"))),
+            ("(z = 2; rec(z)) <", "ERR WrongOperatorArgumentAmount", ctxt(z="I2"), L(("rec", "I2"))),
+            ("p += (q = false; rec(5)) *", "ERR WrongOperatorArgumentAmount", ctxt(q="B0"), L(("rec", "I5"))),
+            ("(rec(1), boom(2) -)", "ERR CustomMessage", ctxt(), L(("rec", "I1"), ("boom", "I2"))),
+            ("rec(1); - ; rec(2)", "ERR WrongOperatorArgumentAmount", ctxt(), L(("rec", "I1"))),
             ("min(rec(1), rec(2))", "OK T(I1,I2)", ctxt(), L(("rec", "I1"), ("rec", "I2"), ("min", "T(I1,I2)"))),
             ("len(rec(1))", "ERR CustomMessage", ctxt(), L(("rec", "I1"), ("len", "I1")))]:
         for entry in ("smv", "nmv"):
@@ -1669,6 +1692,11 @@ def c11_oracle(case, out, model_out):
             return "read-only evaluation of %r changed the context: %s -> %s" % (m["src"], d0, d1)
         if ro != ro_n:
             return "string-level and tree-level read-only evaluation of %r differ: %s vs %s" % (m["src"], ro, ro_n)
+        if m["ctx"] == "H" and "LOG[" in out:
+            lg = out[out.index("LOG[") + 4:out.rindex("]")]
+            want_lg = ",".join(x for x in (m["want_mut"][2], m["want_ro"][2], m["want_ro"][2]) if x)
+            if lg != want_lg:
+                return "evaluating %r once with a mutable and twice with a shared context calls the user functions %s; the reference (every call made, once, in order) gives %s" % (m["src"], lg, want_lg)
         if m["ctx"] == "N":      # read-only evaluation does not depend on how the context would store anything
             ty = m.get("ty", "v")
             if strip_payload(ro) != strip_payload(project_text(ty, m["want_ro"][0])):
@@ -1844,9 +1872,15 @@ def c04_history(rng, length):
                 src = "%s %s %s" % (x, aop, lit)
                 ops.append("ev smv " + hexs(src))
                 val = parse_value(v)
+            if wide and rng.random() < 0.5:
+                code = rng.choice("sn") + "m" + rng.choice("veeinfsbt")
+                ops[-1] = ops[-1].replace("ev smv ", "ev %s " % code, 1)
+            else:
+                code = "smv"
+            proj = lambda w: project_text(code[2], w) if w.startswith("OK") else w
             if aop == "=":
                 r = A.set_value(x, val)
-                want.append("OK E" if r == "OK" else r)
+                want.append(proj("OK E") if r == "OK" else r)
             elif x not in A.vars:
                 want.append("ERR VariableIdentifierNotFound(%s)" % hexs(x))
             else:
@@ -1859,7 +1893,7 @@ def c04_history(rng, length):
                     want.append(r)
                 else:
                     s = A.set_value(x, r)
-                    want.append("OK E" if s == "OK" else s)
+                    want.append(proj("OK E") if s == "OK" else s)
         elif k < 0.6:
             ops.append("get " + hexs(x))
             want.append("SOME " + value_text(A.vars[x]) if x in A.vars else "NONE")
@@ -2252,7 +2286,8 @@ def c14_gen(tier, rng):
         if rng.random() < 0.3:
             e = G.add_redundant_parens(rng, e)
         if rng.random() < 0.25:     # variables named like builtins and like the functions of the program: the class comes from the syntax only
-            e = rename_ast(e, lambda c, nm: {"a": "len", "b": "max", "c": "f", "x": "typeof", "foo": "if", "y": "True", "_z": "FALSE", "a1": "tRue"}.get(nm, nm) if c in "RW" else nm)
+            e = rename_ast(e, lambda c, nm: rng.choice([{"a": "len", "b": "max", "c": "f", "x": "typeof", "foo": "if", "y": "True", "_z": "FALSE", "a1": "tRue"},
+                                                         {"a": "price", "b": "e", "c": "xE", "x": "rate", "y": "a2e", "foo": "E", "_z": "one", "a1": "x1e"}]).get(nm, nm) if c in "RW" else nm)
         src = G.render(G.flatten(e), rng, rng.choice(["space", "tight"]))
         occ = occurrences(e)
         j = lambda cls: ",".join(hexs(nm) for c, nm in occ if c in cls)
@@ -2514,6 +2549,25 @@ def c06_gen(tier, rng):
     tree("a-1e+2", "OK (RootNode (Sub (Read:61) (Const:F%016x)))" % f_bits(100.0))
     tree("1e+", "OK (RootNode (Add (Read:%s)))" % hexs("1e"))
     tree("1e-x", "OK (RootNode (Sub (Read:%s) (Read:78)))" % hexs("1e"))
+    # the signed-exponent join looks at the TEXT of the third token: a string literal is not an exponent
+    tree('1e+"5"', "OK (RootNode (Add (Read:%s) (Const:S35)))" % hexs("1e"))
+    tree('2.5e-"3"', "OK (RootNode (Sub (Read:%s) (Const:S33)))" % hexs("2.5e"))
+    tree('1E-"x"', "OK (RootNode (Sub (Read:%s) (Const:S78)))" % hexs("1E"))
+    tree("1e+true", "OK (RootNode (Add (Read:%s) (Const:B1)))" % hexs("1e"))
+    tree("1e-(3)", "OK (RootNode (Sub (Read:%s) (RootNode (Const:I3))))" % hexs("1e"))
+    # several string literals in one source: what one contains (a trailing backslash, comment markers, quotes) does not leak into the next
+    parts = ["x\\", "/*y*/", "//", "a\"b", "\\\\", "", "*/", "/*", "b//c", "\\\"", "q", "\n", "a\\"]
+    for _ in range(600 if tier == "quick" else 8000):
+        ts = [rng.choice(parts) for _ in range(rng.randint(2, 4))]
+        sep = rng.choice([", ", " + ", ",", "+", "; "])
+        src = sep.join(quote(t) for t in ts)
+        if "+" in sep:
+            want = "(Const:S%s)" % hexs(ts[0])
+            for t in ts[1:]:
+                want = "(Add %s (Const:S%s))" % (want, hexs(t))
+        else:
+            want = "(%s %s)" % ("Tuple" if "," in sep else "Chain", " ".join("(RootNode (Const:S%s))" % hexs(t) for t in ts))
+        tree(src, "OK (RootNode %s)" % want)
     tree("2e-3x", "OK (RootNode (Sub (Read:%s) (Read:%s)))" % (hexs("2e"), hexs("3x")))
     tree("1e+2e", "OK (RootNode (Add (Read:%s) (Read:%s)))" % (hexs("1e"), hexs("2e")))
     tree("1e-3.5.1", "OK (RootNode (Sub (Read:%s) (Read:%s)))" % (hexs("1e"), hexs("3.5.1")))
@@ -2606,10 +2660,13 @@ def c07_gen(tier, rng):
             cases.append(("TREE\t" + hexs(a + " " + b), {"kind": "ws-ref", "src": a + " " + b}))
     # the halves of a two-character operator: a comment between them separates exactly as white space does
     for a, b in (("&", "&"), ("|", "|"), ("=", "="), ("!", "="), ("<", "="), (">", "="), ("+", "="), ("-", "="), ("*", "="), ("/", "="), ("%", "="), ("^", "="),
-                 ("&&", "="), ("||", "="), ("a", "b"), ("1", "2"), ("1e", "-3"), ("1", ".5")):
-        for sep in ("/**/", "/* x */", "//\n", "// y\n", " /**/ ", "/**//**/", "\n"):
+                 ("&&", "="), ("||", "="), ("a", "b"), ("1", "2"), ("1e", "-3"), ("1", ".5"), ("-", "9223372036854775808"), ("+ -", "9223372036854775808"),
+                 ("len", '"abc"'), ("f", '"a /* b */ c"'), ("x", '"'), ("1", '"s"'), ('"a"', '"b"'), ('"a"', "b"), (")", "("), ("a", "(")):
+        for sep in ("/**/", "/* x */", "//\n", "// y\n", " /**/ ", "/**//**/", "\n", ""):
             if a == "/" and sep.startswith("/"):
                 continue
+            if sep == "" and not (a in ("-", "+ -", "len", "f", "x", "1", '"a"', ")") and b[0] in '"9(b'):
+                continue      # the empty separator only where the two tokens cannot fuse
             src = "p " + a + sep + b + " q"
             ref = "p " + a + " " + b + " q"
             cases.append(("TREE\t" + hexs(src), {"kind": "ws-char", "src": src, "ws": 0x20, "ref": ref}))
@@ -2943,6 +3000,16 @@ def c16_special(tier, rng, hooks):
         lines.append("%d\tSERDEN\t%s" % (i, hexs(src)))
     for src in ["", " ", "  a + 1  ", "\ta\n", "1 +", ")", "\"", "a /* x", "1, 2; 3", "1 + 2 /* todo", "/*", "-5", "+5", "-9223372036854775808", "9223372036854775807", " 7", "7 ", "0x10", "-0x10", "1e3", "true", "-1.5", "+1.5", "007", "1_000", " -5 ", "--5", "- 5", "\"a\\n\"", "(", "a b", "1 2", "= 1", "a \\ b", "\"\\", "1 )) 2"]:
         lines.append("%d\tSERDEN\t%s" % (len(lines), hexs(src)))
+    # strings that differ only in white space (inside a string literal, at the end of a line comment, between tokens),
+    # deserialized one after the other in the same thread
+    pairs = [('"a b"', '"a  b"'), ('"a  b"', '"a b"'), ("1 // c\n+ 2", "1 // c + 2"), ("1 + 2", "1 +  2"), ('"x"', '" x"'), ("a  b", "a b"), ("1 2", "12"), ("12", "1 2"),
+             ("a\n=\n1", "a = 1"), ('"\t"', '" "'), ("1 /* a  b */ + 2", "1 /* a b */ - 2"), ("true", "true "), (" 1", "1"), ('"a" + "b  c"', '"a" + "b c"')]
+    for a_, b_ in pairs:
+        lines.append("%d\tSERDEN2\t%s\t%s\t%s" % (len(lines), hexs(a_), hexs(b_), hexs(a_)))
+    for _ in range(n // 10):
+        t = G.rand_unicode_string(rng, 6)
+        a_, b_ = quote("p " + t + " q"), quote("p  " + t + " q")
+        lines.append("%d\tSERDEN2\t%s\t%s" % (len(lines), hexs(a_), hexs(b_)))
     for i in range(n // 2):
         ops = []
         for _ in range(rng.randint(0, 8) if rng.random() < 0.8 else rng.randint(9, 40)):
@@ -2963,6 +3030,10 @@ def c16_special(tier, rng, hooks):
             ns += 1
         else:
             nc += 1
+        if "SERDEN2" in l:
+            if not o or any(not part.startswith("SAME") for part in o.split(" ;; ")):
+                fails.append({"why": "strings deserialized one after the other: the serde result of one of them differs from precompiling it: %s" % o[:400], "case": l.split("\t", 1)[1][:400], "observed": o[:400]})
+            continue
         if not o.startswith("SAME"):
             kind = "string" if "SERDEN" in l else "context"
             fails.append({"why": "serde round trip of a %s differs from the direct result: %s" % (kind, o[:400]), "case": l.split("\t", 1)[1][:400], "observed": o[:400]})
